@@ -2,6 +2,7 @@ import MpfVerif.Lemmas.Light
 import MpfVerif.Lemmas.LightHw
 import MpfVerif.Lemmas.BatchLight
 import MpfVerif.Lemmas.LightOut
+import MpfVerif.Lemmas.LightDev
 /-!
 # C09 — Light hardware output equals the priority stack's colour
 
@@ -395,6 +396,57 @@ theorem batch_round_exactly_once (ops : List Batch.Op) :
       subst this; exact hm
     · intro hm; exact ⟨(l, false), ⟨hm, by simp⟩, rfl⟩
 
+/-! ### the device as a whole: suppression bookkeeping (uncorrected) against what the channels were told (corrected) -/
+
+/-- The dedupe shortcuts of `_schedule_update` compare *uncorrected* stack colours with the remembered last target, while
+the channels receive colours after brightness factor, correction profile and channel mapping.  For every device
+configuration (1/3/4 channels, any RGBW style, brightness factor, correction table — including tables under which one
+colour is the corrected image of another — hardware maximum fade) and every history of colour/on/off/remove/clear commands,
+fade-out delay firings, clock advances and fade-task resumptions: each hardware channel either has never been commanded
+(nothing was ever sent) or its *latest* `set_fade` command targets exactly the channel value of the **corrected** target
+colour of the current stack.  So no coincidence between a new colour and the corrected (or uncorrected) value of an
+earlier one can make the shortcuts drop an update the hardware needs. -/
+theorem channel_target_is_corrected_stack_target (n iv mf style q : Nat) (onC : RGB) (tab : List Nat) (ops : List DOp)
+    (i : Nat) (c : Chan) (hc : (drun (dinit n iv mf style q onC tab) ops).chans[i]? = some c) :
+    ((drun (dinit n iv mf style q onC tab) ops).l.last = none ∧ c.cmd = none) ∨
+    ∃ m, c.cmd = some m ∧
+      m.tb = chanVal n i style (outC tab q (targetOf (drun (dinit n iv mf style q onC tab) ops).l.stack).tc) := by
+  obtain ⟨⟨_, hsent⟩, hch⟩ := drun_inv ops _ (dinit_inv n iv mf style q onC tab)
+  obtain ⟨c1, c2, c3, c4, _⟩ := drun_cfg ops (dinit n iv mf style q onC tab)
+  obtain ⟨_, _, e⟩ := hch i c hc
+  rw [c1, c2, c3, c4] at e
+  cases hl : (drun (dinit n iv mf style q onC tab) ops).l.last with
+  | none => left; rw [hl] at e; exact ⟨rfl, e⟩
+  | some t =>
+    right
+    rw [hl] at e
+    refine ⟨_, e, ?_⟩
+    rw [cmdOf_tb, ← hsent]
+    simp only [sentTc, hl]
+    rfl
+
+/-- The at-rest clause of C09 on the direct, software-faded and hardware-fading back ends, *with* brightness and colour
+correction: after every history, once all fades and fade-outs are over, something was sent at all, and a channel has no
+live stepping task, the brightness last commanded to that channel is the channel value of the corrected logical
+colour. -/
+theorem corrected_output_at_rest (n iv mf style q : Nat) (onC : RGB) (tab : List Nat) (ops : List DOp)
+    (i : Nat) (c : Chan) (hc : (drun (dinit n iv mf style q onC tab) ops).chans[i]? = some c)
+    (hsent : (drun (dinit n iv mf style q onC tab) ops).l.last ≠ none)
+    (hq : Quiet (drun (dinit n iv mf style q onC tab) ops).l.now (drun (dinit n iv mf style q onC tab) ops).l.stack)
+    (ht : c.tasks = []) :
+    c.lastB = (chanVal n i style (outC tab q
+      (getColor (drun (dinit n iv mf style q onC tab) ops).l.now (drun (dinit n iv mf style q onC tab) ops).l.stack)), 255) := by
+  obtain ⟨_, hch⟩ := drun_inv ops _ (dinit_inv n iv mf style q onC tab)
+  obtain ⟨_, hQ, _⟩ := hch i c hc
+  rcases channel_target_is_corrected_stack_target n iv mf style q onC tab ops i c hc with ⟨h, _⟩ | ⟨m, hm, hb⟩
+  · exact absurd h hsent
+  · rw [hQ ht m hm, hb, target_eq_color_of_quiet _ _ hq]
+
+/-- every channel of the device exists throughout: the latest-command statement above speaks about all `n` channels -/
+theorem device_keeps_its_channels (n iv mf style q : Nat) (onC : RGB) (tab : List Nat) (ops : List DOp) :
+    (drun (dinit n iv mf style q onC tab) ops).chans.length = n :=
+  drun_len ops _ n (by simp [dinit])
+
 /-! ### the hypotheses are satisfiable on non-trivial states (kernel evaluation) -/
 
 def exOps : List Op :=
@@ -440,5 +492,21 @@ example : (Batch.group 3 2 [(10, 0), (11, 0), (12, 0), (13, 0), (15, 0), (20, 0)
 /-- a round with a skipped light and a list that overflowed: both lights computed and not skipped were sent once -/
 example : ((Batch.run { maxBatch := 1 } [.adv 16, .mark 0 ⟨0, 0, 255, none⟩, .mark 1 ⟨0, 0, 128, none⟩, .compute 0, .compute 1,
     .flushKeep, .delivered, .flush, .delivered]).roundSent.flatten.map (·.1)) = [0, 1] := by decide
+
+/-- the coincidence of the seeded change: brightness 0.5, white, then (127,127,127) = corrected(white) under the same key:
+the second command is NOT suppressed, the channels end at corrected(127,127,127) = 63 -/
+def exDev : List DOp :=
+  [.light (.adv 8), .light (.color (255, 255, 255) 0 1 1 8), .light (.adv 9), .light (.color (127, 127, 127) 0 1 1 9)]
+
+example : ((drun (dinit 3 1 0 0 2 (255, 255, 255) []) exDev).chans.map (·.lastB)) = [(63, 255), (63, 255), (63, 255)] := by
+  decide
+example : (drun (dinit 3 1 0 0 2 (255, 255, 255) []) exDev).l.last ≠ none ∧
+    Quiet (drun (dinit 3 1 0 0 2 (255, 255, 255) []) exDev).l.now (drun (dinit 3 1 0 0 2 (255, 255, 255) []) exDev).l.stack ∧
+    ((drun (dinit 3 1 0 0 2 (255, 255, 255) []) exDev).chans.all (fun c => c.tasks.isEmpty)) = true := by decide
+/-- a software fade to a colour, the same colour re-issued above it with a fade (target = start), the task steps, the upper
+key removed (colour beneath equals the removed one): one live task at most, and at rest the corrected colour -/
+example : ((drun (dinit 1 1 0 0 3 (255, 255, 255) []) [.light (.adv 8), .light (.color (100, 100, 100) 2 1 1 8), .task 0,
+    .light (.adv 9), .task 0, .light (.color (100, 100, 100) 4 2 2 9), .light (.adv 10), .task 0, .light (.adv 14),
+    .task 0, .light (.remove 2 0)]).chans.map (fun c => (c.lastB, c.tasks.length))) = [((75, 255), 0)] := by decide
 
 end MpfVerif.C09
